@@ -11,6 +11,7 @@ import (
 	"github.com/elementsproject/glightning/jrpc2"
 	"github.com/elementsproject/peerswap/onchain"
 	"github.com/elementsproject/peerswap/swap"
+	"github.com/elementsproject/peerswap/verifsim/rt"
 	"github.com/elementsproject/peerswap/wallet"
 	"github.com/vulpemventures/go-elements/elementsutil"
 	"github.com/vulpemventures/go-elements/network"
@@ -24,22 +25,43 @@ import (
 // SimLiquidWallet book, transactions go to SimChain.
 
 type fakeElementsd struct {
-	n       *Node
-	l       *SimLiquidWallet
-	loaded  map[string]bool
+	n        *Node
+	l        *SimLiquidWallet
+	selected string          // the wallet this client's wallet RPCs are routed to ("" = elementsd's default wallet)
+	loaded   map[string]bool // wallets loaded in the daemon; the daemon outlives peerswap restarts
 	ann     map[string]*swap.OpeningParams // task -> opening being created
 	pending map[string]*elemFunding        // swap script (hex) -> funding in progress
 }
 
 type elemFunding struct {
-	value uint64
-	asset []byte
-	fee   uint64
-	idx   int
+	value    uint64
+	asset    []byte
+	fee      uint64
+	idx      int
+	errAfter bool // the acknowledgement of the broadcast will be lost
+	reject26 bool // the node will refuse the broadcast (min relay fee not met)
+}
+
+// swapIndexFor: where the caller's output ends up among the `others` outputs the daemon adds.
+func swapIndexFor(lay LayoutCfg, others int) int {
+	idx := lay.SwapIndex
+	if lay.RandomPos {
+		idx = int(rt.RandUint64() % uint64(others+1))
+	}
+	if idx < 0 {
+		idx = 0
+	}
+	if idx > others {
+		idx = others
+	}
+	return idx
 }
 
 func newFakeElementsd(n *Node) *fakeElementsd {
-	return &fakeElementsd{n: n, l: n.LiquidWallet, loaded: map[string]bool{}, ann: map[string]*swap.OpeningParams{}, pending: map[string]*elemFunding{}}
+	if n.elemLoaded == nil {
+		n.elemLoaded = map[string]bool{}
+	}
+	return &fakeElementsd{n: n, l: n.LiquidWallet, loaded: n.elemLoaded, ann: map[string]*swap.OpeningParams{}, pending: map[string]*elemFunding{}}
 }
 
 func (f *fakeElementsd) ListWallets() ([]string, error) {
@@ -69,11 +91,8 @@ func sortedBoolKeys(m map[string]bool) []string {
 }
 
 func (f *fakeElementsd) LoadWallet(name string, onstartup bool) (string, error) {
-	if f.n.Boots <= 1 {
-		return "", &jrpc2.RpcError{Code: -18, Message: "Wallet file verification failed. Failed to load database path. Path does not exist."}
-	}
-	f.loaded[name] = true
-	return name, nil
+	// (a wallet that exists is loaded: it was created with load_on_startup and the daemon keeps running)
+	return "", &jrpc2.RpcError{Code: -18, Message: "Wallet file verification failed. Failed to load database path. Path does not exist."}
 }
 
 func (f *fakeElementsd) CreateWallet(name string) (string, error) {
@@ -81,10 +100,26 @@ func (f *fakeElementsd) CreateWallet(name string) (string, error) {
 	return name, nil
 }
 
-func (f *fakeElementsd) SetRpcWallet(string) {}
+func (f *fakeElementsd) SetRpcWallet(name string) { f.selected = name }
 
-func (f *fakeElementsd) GetNewAddress(addrType int) (string, error) { return f.l.GetAddress() }
-func (f *fakeElementsd) GetBalance() (uint64, error)               { return f.l.GetBalance() }
+// ours: wallet RPCs reach the swap wallet only if the client selected it; otherwise they go to
+// the daemon's default wallet, which is somebody else's book.
+func (f *fakeElementsd) ours() bool { return f.loaded[f.selected] && f.selected != "" }
+
+func (f *fakeElementsd) GetNewAddress(addrType int) (string, error) {
+	if !f.ours() {
+		f.n.w.Probe("elementsd:wallet-rpc-to-default-wallet")
+		return f.l.foreignAddr()
+	}
+	return f.l.GetAddress()
+}
+func (f *fakeElementsd) GetBalance() (uint64, error) {
+	if !f.ours() {
+		f.n.w.Probe("elementsd:wallet-rpc-to-default-wallet")
+		return 0, nil
+	}
+	return f.l.GetBalance()
+}
 func (f *fakeElementsd) SendToAddress(string, string) (string, error) {
 	return "", errors.New("not used by swaps")
 }
@@ -122,6 +157,10 @@ func (f *fakeElementsd) FundRawWithOptions(txstring string, options *gelements.F
 	flt := n.op("lwallet.open")
 	if flt != nil && flt.Kind == "err" {
 		return nil, errors.New("elementsd: fundrawtransaction failed")
+	}
+	if !f.ours() {
+		w.Probe("elementsd:wallet-rpc-to-default-wallet")
+		return nil, &jrpc2.RpcError{Code: -4, Message: "Insufficient funds"}
 	}
 	tx, err := transaction.NewTxFromHex(txstring)
 	if err != nil {
@@ -171,13 +210,7 @@ func (f *fakeElementsd) FundRawWithOptions(txstring string, options *gelements.F
 		v, _ := elementsutil.ValueToBytes(uint64(1000 + i))
 		outs = append(outs, transaction.NewTxOutput(out.Asset, v, es))
 	}
-	idx := lay.SwapIndex
-	if idx < 0 {
-		idx = 0
-	}
-	if idx > len(outs) {
-		idx = len(outs)
-	}
+	idx := swapIndexFor(lay, len(outs))
 	outs = append(outs[:idx], append([]*transaction.TxOutput{out}, outs[idx:]...)...)
 	if lay.Change {
 		changePos = 0
@@ -198,7 +231,8 @@ func (f *fakeElementsd) FundRawWithOptions(txstring string, options *gelements.F
 		return nil, err
 	}
 	n.mu.Lock()
-	f.pending[hex.EncodeToString(out.Script)] = &elemFunding{value: value, asset: append([]byte(nil), out.Asset...), fee: fee, idx: idx}
+	f.pending[hex.EncodeToString(out.Script)] = &elemFunding{value: value, asset: append([]byte(nil), out.Asset...), fee: fee, idx: idx,
+		errAfter: flt != nil && flt.Kind == "errafter", reject26: flt != nil && flt.Kind == "reject26"}
 	n.mu.Unlock()
 	return &gelements.FundRawResult{TxString: h, Fee: float64(fee) / 1e8, ChangePosition: changePos}, nil
 }
@@ -255,9 +289,16 @@ func (f *fakeElementsd) SendRawTx(txHex string) (string, error) {
 	if fd == nil {
 		return f.l.SendRawTx(txHex)
 	}
-	flt := n.op("lwallet.broadcast")
-	if flt != nil && flt.Kind == "err" {
-		return "", errors.New("elementsd: rpc unavailable")
+	// (the fault drawn when this opening was funded decides the fate of its broadcast: the
+	// existing "lwallet.open" site then covers the whole fund / blind / sign / send sequence)
+	var flt *Fault
+	if fd.reject26 {
+		fd.reject26 = false
+		w.Probe("lwallet:broadcast-refused-min-relay-fee")
+		return "", &jrpc2.RpcError{Code: -26, Message: "min relay fee not met"}
+	}
+	if fd.errAfter {
+		flt = &Fault{Kind: "errafter"}
 	}
 	txid, err := w.LBTC.Broadcast(n.ID, txHex, "opening")
 	if err != nil {
